@@ -124,7 +124,8 @@ def _adaptive_case(draw, tier):
                                 dict(kind="ramp", B=1.5, tmax=0.5), dict(kind="float", B=-0.8)]))
     cur = draw(st.sampled_from([None, dict(kind="dict", quantum="1", mult={"src": 5, "drn": -5}),
                                 dict(kind="callable", quantum="0.1", mult={"src": 70, "drn": -70}, profile="ramp", t0=0.2)]))
-    return dict(kind="generated", device=_device(npr), options=opts, field=fld, currents=cur)
+    # the requested output name may already be taken by the result of an earlier, different run (the documented auto-rename)
+    return dict(kind="generated", device=_device(npr), options=opts, field=fld, currents=cur, name_taken=draw(st.integers(0, 3)) == 0)
 
 
 def strategy(tier):
@@ -173,6 +174,12 @@ def check_case(spec):
         o["solve_time"] = (nominal - 0.5) * o["dt_c"] * build.stable_dt(dev)
     k = int(o["save_every"])
     with sim.workdir() as (cwd, tmp):
+        if spec.get("name_taken"):
+            res.label("output name taken by an earlier, different run")
+            o_prev = dict(o, save_every=1, adaptive=False, include_screening=False, skip_steps=0)
+            o_prev.pop("solve_time", None)
+            o_prev["nsteps"] = 2
+            build.make_solver(dev, build.make_options(o_prev, dev, output_file="out.h5"), applied_vector_potential=0.1, terminal_currents=None).solve()
         opts = build.make_options(o, dev, output_file="out.h5")
         T = opts.solve_time
         solver = build.make_solver(
